@@ -393,3 +393,27 @@ def swapped_argument_obligations(ctx: Context, rule: str) -> int:
                           construct=f"{fi.short}: {norm_text(site.func)}({', '.join(norm_text(a) for a in site.args)}) -> {target.short}({', '.join(params)})",
                           detail='; '.join(bad))
     return n
+
+
+# --------------------------------------------------------------------------- obligations shared between properties
+
+def share_obligations(ctx: Context, module, rules: set, as_rule: str, only=None) -> int:
+    """Run another property's rule module in a sub-context and adopt the obligations of `rules` under `as_rule`.
+
+    Used where two properties rest on the same structural fact (e.g. C04's "holes are never
+    returned" and C06's "invalid polygons are found over the full array")."""
+    sub = Context(ctx.p, ctx.prop, ctx.tier)
+    sub._flows, sub._cfgs, sub._types = ctx._flows, ctx._cfgs, ctx._types
+    try:
+        module.run(sub)
+    except Exception as exc:
+        if type(exc).__name__ != 'AbortRules':
+            raise
+    n = 0
+    for ob in sub.obligations:
+        if ob.rule in rules and (only is None or only(ob)):
+            ctx.obligations.append(type(ob)(as_rule, f"[{ob.rule}] {ob.text}", ob.site, ob.function, ob.construct, ob.ok, ob.detail))
+            ctx.instances[as_rule] = ctx.instances.get(as_rule, 0) + 1
+            n += 1
+    ctx.functions_analysed |= sub.functions_analysed
+    return n
